@@ -30,6 +30,49 @@ theorem writeOffset_frame (f : OffsetFormat) (hsz : f.valueSize = 1 ∨ f.valueS
          rw [hl] at hw; dsimp only at hw
          exact ⟨storeLE_length _ _ _ _ _ hw, storeLE_frame _ _ _ _ _ hw⟩)
 
+
+theorem loadLE_isSome (n : Nat) : ∀ (buf : Bytes) (p : Nat), p + n ≤ buf.length → ∃ v, loadLE buf p n = some v := by
+  induction n with
+  | zero => intro buf p _; exact ⟨0, rfl⟩
+  | succ k ih =>
+    intro buf p h
+    obtain ⟨r, hr⟩ := ih buf (p + 1) (by omega)
+    have hp : p < buf.length := by omega
+    refine ⟨(buf[p]).toNat + 256 * r, ?_⟩
+    simp only [loadLE, hr]
+    rw [List.getElem?_eq_getElem hp]
+
+theorem storeLE_isSome (n : Nat) : ∀ (buf : Bytes) (p v : Nat), p + n ≤ buf.length → ∃ b, storeLE buf p v n = some b := by
+  induction n with
+  | zero => intro buf p v _; exact ⟨buf, rfl⟩
+  | succ k ih =>
+    intro buf p v h
+    have hp : p < buf.length := by omega
+    simp only [storeLE, hp, if_true]
+    exact ih _ _ _ (by simp; omega)
+
+/-- inside the buffer `write_offset` fails only because the codec refuses the displacement -/
+theorem writeOffset_none_encode (f : OffsetFormat) (hsz : f.valueSize = 1 ∨ f.valueSize = 4) (buf : Bytes) (pos : Nat) (off : BitVec 64)
+    (hb : pos + f.valueOffset + f.valueSize ≤ buf.length) (hw : writeOffset buf pos off f = none) :
+    encodeOffset32 f off = none := by
+  unfold writeOffset at hw
+  obtain ⟨old, ho⟩ := loadLE_isSome f.valueSize buf (pos + f.valueOffset) hb
+  cases hm : encodeOffset32 f off with
+  | none => rfl
+  | some m =>
+    exfalso
+    rcases hsz with h | h <;> rw [h] at hw ho hb <;> dsimp only at hw <;> rw [hm, ho] at hw <;> dsimp only at hw
+    · obtain ⟨b, hb'⟩ := storeLE_isSome 1 buf (pos + f.valueOffset) (old ||| m.toNat % 2 ^ (8 * 1)) hb
+      rw [hb'] at hw; cases hw
+    · obtain ⟨b, hb'⟩ := storeLE_isSome 4 buf (pos + f.valueOffset) (old ||| m.toNat % 2 ^ (8 * 4)) hb
+      rw [hb'] at hw; cases hw
+
+theorem writeOffset_some_encode (f : OffsetFormat) (hsz : f.valueSize = 1 ∨ f.valueSize = 4) (buf buf' : Bytes) (pos : Nat) (off : BitVec 64)
+    (hw : writeOffset buf pos off f = some buf') : encodeOffset32 f off ≠ none := by
+  intro hm
+  unfold writeOffset at hw
+  rcases hsz with h | h <;> rw [h] at hw <;> dsimp only at hw <;> rw [hm] at hw <;> simp at hw
+
 /-- a successful patch of reference `w` leaves the field of every disjoint reference `g` alone -/
 theorem field_setBuf_disjoint (secs : List Section) (sec : Section) (buf' : Bytes) (w g : GRef) (disp : BitVec 64)
     (hw : w.fmt ∈ fixupFormats) (hs : secs[w.sec]? = some sec)
@@ -100,13 +143,15 @@ structure StepSpec (l toSec : Nat) (toOff : BitVec 64) (acc acc' : Acc) (f : Fix
   shape : SameShape acc.secs acc'.secs
   frame : ∀ g, (f.lr = none → D g (f.toG l)) → field acc'.secs g = field acc.secs g
   own   : f.lr = none → FieldZero acc.secs (f.toG l) →
-            (f.sec = toSec ∧ Decodes acc'.secs (f.toG l) (toOff - BitVec.ofNat 64 f.offset + f.rel)) ∨
+            (f.sec = toSec ∧ encodeOffset32 f.fmt (toOff - BitVec.ofNat 64 f.offset + f.rel) ≠ none ∧
+              Decodes acc'.secs (f.toG l) (toOff - BitVec.ofNat 64 f.offset + f.rel)) ∨
             (({ f with lr := some l } : Fixup) ∈ acc'.kept ∧ FieldZero acc'.secs (f.toG l))
   keptMono : ∀ k ∈ acc.kept, k ∈ acc'.kept
-  keptNew  : ∀ k ∈ acc'.kept, k ∈ acc.kept ∨ (f.lr = none ∧ k = { f with lr := some l })
+  keptNew  : ∀ k ∈ acc'.kept, k ∈ acc.kept ∨ (f.lr = none ∧ k = { f with lr := some l } ∧
+               (f.sec ≠ toSec ∨ encodeOffset32 f.fmt (toOff - BitVec.ofNat 64 f.offset + f.rel) = none))
 
 theorem bindStep_spec (l toSec : Nat) (toOff : BitVec 64) (acc : Acc) (f : Fixup)
-    (hf : f.lr = none → f.fmt ∈ fixupFormats) :
+    (hf : f.lr = none → f.fmt ∈ fixupFormats) (hb : f.lr = none → InB acc.secs (f.toG l)) :
     StepSpec l toSec toOff acc (bindStep l toSec toOff acc f) f := by
   unfold bindStep
   cases hlr : f.lr with
@@ -121,53 +166,51 @@ theorem bindStep_spec (l toSec : Nat) (toOff : BitVec 64) (acc : Acc) (f : Fixup
       intro k hk; simp at hk
       rcases hk with hk | hk
       · exact .inl hk
-      · exact .inr ⟨hlr, hk⟩
+      · exact .inr ⟨hlr, hk, .inl hsec⟩
     · rw [if_neg hsec]
       have hsec' : f.sec = toSec := Classical.not_not.mp hsec
-      cases hs : acc.secs[toSec]? with
+      obtain ⟨sec, hs0, hbnd⟩ := hb hlr
+      have hs : acc.secs[toSec]? = some sec := by rw [← hsec']; exact hs0
+      have hfm := hf hlr
+      have hsz := fmt_size_pos hfm
+      rw [hs]
+      simp only [Option.bind_some]
+      cases hw : writeOffset sec.buf f.offset (toOff - BitVec.ofNat 64 f.offset + f.rel) f.fmt with
       | none =>
-        simp only [Option.bind_none]
+        dsimp only
+        have henc := writeOffset_none_encode f.fmt hsz.2.2 sec.buf f.offset _ (by rw [hsz.2.1]; exact hbnd) hw
         refine ⟨SameShape.refl _, fun _ _ => rfl, fun _ hz => .inr ⟨by simp, hz⟩, fun k h => by simp [h], ?_⟩
         intro k hk; simp at hk
         rcases hk with hk | hk
         · exact .inl hk
-        · exact .inr ⟨hlr, hk⟩
-      | some sec =>
-        simp only [Option.bind_some]
-        cases hw : writeOffset sec.buf f.offset (toOff - BitVec.ofNat 64 f.offset + f.rel) f.fmt with
-        | none =>
-          dsimp only
-          refine ⟨SameShape.refl _, fun _ _ => rfl, fun _ hz => .inr ⟨by simp, hz⟩, fun k h => by simp [h], ?_⟩
-          intro k hk; simp at hk
-          rcases hk with hk | hk
-          · exact .inl hk
-          · exact .inr ⟨hlr, hk⟩
-        | some buf' =>
-          dsimp only
-          have hfm := hf hlr
-          have hs' : acc.secs[(f.toG l).sec]? = some sec := by show acc.secs[f.sec]? = _; rw [hsec']; exact hs
-          have hfr := writeOffset_frame f.fmt (fmt_size_pos hfm).2.2 _ _ _ _ hw
-          refine ⟨sameShape_setBuf _ _ _ _ hs hfr.1, ?_, ?_, fun _ h => h, fun _ h => .inl h⟩
-          · intro g hd
-            have := field_setBuf_disjoint acc.secs sec buf' (f.toG l) g _ hfm hs' hw (hd hlr)
-            rw [show (f.toG l).sec = toSec from hsec'] at this
-            exact this
-          · intro _ hz
-            left
-            refine ⟨hsec', ?_⟩
-            have := field_setBuf_own acc.secs sec buf' (f.toG l) _ hfm hs' hw hz
-            rw [show (f.toG l).sec = toSec from hsec'] at this
-            exact this
+        · exact .inr ⟨hlr, hk, .inr henc⟩
+      | some buf' =>
+        dsimp only
+        have hs' : acc.secs[(f.toG l).sec]? = some sec := hs0
+        have hfr := writeOffset_frame f.fmt hsz.2.2 _ _ _ _ hw
+        refine ⟨sameShape_setBuf _ _ _ _ hs hfr.1, ?_, ?_, fun _ h => h, fun _ h => .inl h⟩
+        · intro g hd
+          have := field_setBuf_disjoint acc.secs sec buf' (f.toG l) g _ hfm hs' hw (hd hlr)
+          rw [show (f.toG l).sec = toSec from hsec'] at this
+          exact this
+        · intro _ hz
+          left
+          refine ⟨hsec', writeOffset_some_encode f.fmt hsz.2.2 _ _ _ _ hw, ?_⟩
+          have := field_setBuf_own acc.secs sec buf' (f.toG l) _ hfm hs' hw hz
+          rw [show (f.toG l).sec = toSec from hsec'] at this
+          exact this
 
 /-- the whole loop -/
 structure LoopSpec (l toSec : Nat) (toOff : BitVec 64) (acc acc' : Acc) (fx : List Fixup) : Prop where
   shape : SameShape acc.secs acc'.secs
   frame : ∀ g, (∀ f ∈ fx, f.lr = none → D g (f.toG l)) → field acc'.secs g = field acc.secs g
   own   : ∀ f ∈ fx, f.lr = none → FieldZero acc.secs (f.toG l) →
-            (f.sec = toSec ∧ Decodes acc'.secs (f.toG l) (toOff - BitVec.ofNat 64 f.offset + f.rel)) ∨
+            (f.sec = toSec ∧ encodeOffset32 f.fmt (toOff - BitVec.ofNat 64 f.offset + f.rel) ≠ none ∧
+              Decodes acc'.secs (f.toG l) (toOff - BitVec.ofNat 64 f.offset + f.rel)) ∨
             (({ f with lr := some l } : Fixup) ∈ acc'.kept ∧ FieldZero acc'.secs (f.toG l))
   keptMono : ∀ k ∈ acc.kept, k ∈ acc'.kept
-  keptNew  : ∀ k ∈ acc'.kept, k ∈ acc.kept ∨ ∃ f ∈ fx, f.lr = none ∧ k = { f with lr := some l }
+  keptNew  : ∀ k ∈ acc'.kept, k ∈ acc.kept ∨ ∃ f ∈ fx, f.lr = none ∧ k = { f with lr := some l } ∧
+               (f.sec ≠ toSec ∨ encodeOffset32 f.fmt (toOff - BitVec.ofNat 64 f.offset + f.rel) = none)
 
 theorem fieldZero_congr {a b : List Section} {g : GRef} (h : field b g = field a g) (hz : FieldZero a g) : FieldZero b g := by
   obtain ⟨o, h1, h2⟩ := hz; exact ⟨o, by rw [h]; exact h1, h2⟩
@@ -183,21 +226,23 @@ theorem mem_filter_none {f : Fixup} {fx : List Fixup} (h : f ∈ fx) (hn : f.lr 
 
 theorem bindLoop_spec (l toSec : Nat) (toOff : BitVec 64) : ∀ (fx : List Fixup) (acc : Acc),
     (∀ f ∈ fx, f.lr = none → f.fmt ∈ fixupFormats) →
+    (∀ f ∈ fx, f.lr = none → InB acc.secs (f.toG l)) →
     (fx.filter (fun f => f.lr.isNone)).Pairwise Df →
     LoopSpec l toSec toOff acc (fx.foldl (bindStep l toSec toOff) acc) fx := by
   intro fx
   induction fx with
   | nil =>
-    intro acc _ _
+    intro acc _ _ _
     exact ⟨SameShape.refl _, fun _ _ => rfl, fun _ h => absurd h (by simp), fun _ h => h, fun _ h => .inl h⟩
   | cons f0 rest ih =>
-    intro acc hfm hpw
-    have st := bindStep_spec l toSec toOff acc f0 (hfm f0 List.mem_cons_self)
+    intro acc hfm hinb hpw
+    have st := bindStep_spec l toSec toOff acc f0 (hfm f0 List.mem_cons_self) (hinb f0 List.mem_cons_self)
     have hpw' : (rest.filter (fun f => f.lr.isNone)).Pairwise Df := by
       cases h0 : f0.lr with
       | none => rw [filter_none_cons _ _ h0, List.pairwise_cons] at hpw; exact hpw.2
       | some _ => simpa [h0] using hpw
-    have lp := ih (bindStep l toSec toOff acc f0) (fun f hf => hfm f (List.mem_cons_of_mem _ hf)) hpw'
+    have lp := ih (bindStep l toSec toOff acc f0) (fun f hf => hfm f (List.mem_cons_of_mem _ hf))
+      (fun f hf hn => (hinb f (List.mem_cons_of_mem _ hf) hn).shape st.shape) hpw'
     -- f0 (if patchable) is disjoint from every patchable fixup of the rest
     have hd0 : f0.lr = none → ∀ f ∈ rest, f.lr = none → D (f0.toG l) (f.toG l) := by
       intro h0 f hf hn
@@ -214,19 +259,19 @@ theorem bindLoop_spec (l toSec : Nat) (toOff : BitVec 64) : ∀ (fx : List Fixup
       · -- the step for f itself, then the rest leaves it alone
         have hrest : field (rest.foldl (bindStep l toSec toOff) (bindStep l toSec toOff acc f)).secs (f.toG l) =
             field (bindStep l toSec toOff acc f).secs (f.toG l) := lp.frame _ (fun f' hf' hn' => hd0 hn f' hf' hn')
-        rcases st.own hn hz with ⟨h1, h2⟩ | ⟨h1, h2⟩
-        · exact .inl ⟨h1, decodes_congr hrest h2⟩
+        rcases st.own hn hz with ⟨h1, he, h2⟩ | ⟨h1, h2⟩
+        · exact .inl ⟨h1, he, decodes_congr hrest h2⟩
         · exact .inr ⟨lp.keptMono _ h1, fieldZero_congr hrest h2⟩
       · -- f is in the rest: the step for f0 leaves it alone
         have hz1 : FieldZero (bindStep l toSec toOff acc f0).secs (f.toG l) :=
           fieldZero_congr (st.frame _ (fun h0 => D_symm (hd0 h0 f hf hn))) hz
         exact lp.own f hf hn hz1
     · intro k hk
-      rcases lp.keptNew k hk with h | ⟨f, hf, hn, he⟩
-      · rcases st.keptNew k h with h | ⟨hn, he⟩
+      rcases lp.keptNew k hk with h | ⟨f, hf, hn, he, hr⟩
+      · rcases st.keptNew k h with h | ⟨hn, he, hr⟩
         · exact .inl h
-        · exact .inr ⟨f0, List.mem_cons_self, hn, he⟩
-      · exact .inr ⟨f, List.mem_cons_of_mem _ hf, hn, he⟩
+        · exact .inr ⟨f0, List.mem_cons_self, hn, he, hr⟩
+      · exact .inr ⟨f, List.mem_cons_of_mem _ hf, hn, he, hr⟩
 
 /-- the kept fixups never overlap -/
 theorem bindLoop_kept_pairwise (l toSec : Nat) (toOff : BitVec 64) : ∀ (fx : List Fixup) (acc : Acc),
@@ -299,7 +344,8 @@ theorem inv_bindLabel (s : State) (l sec : Nat) (off : BitVec 64) (h : Inv s) : 
         dsimp only at hwf ⊢
         have hlab := h.lab l fx hle
         have hfm : ∀ f ∈ fx, f.lr = none → f.fmt ∈ fixupFormats := fun f hf hn => h.fmts _ (hlab.1 f hf hn)
-        have LS := bindLoop_spec l sec off fx { secs := s.secs, relocs := s.relocs, kept := [], resolved := 0, err := .ok } hfm hlab.2
+        have LS := bindLoop_spec l sec off fx { secs := s.secs, relocs := s.relocs, kept := [], resolved := 0, err := .ok } hfm
+          (fun f hf hn => h.inb _ (hlab.1 f hf hn)) hlab.2
         have KP := bindLoop_kept_pairwise l sec off fx { secs := s.secs, relocs := s.relocs, kept := [], resolved := 0, err := .ok }
           hlab.2 (by simp) (by intro a ha; cases ha)
         have hllt : l < s.labels.length := getElem?_lt hle
@@ -314,7 +360,7 @@ theorem inv_bindLabel (s : State) (l sec : Nat) (off : BitVec 64) (h : Inv s) : 
           by_cases hgl : g.label = l
           · -- a reference to the label being bound: it was pending on the label's own list
             have hpend : g.toFixup none ∈ fx ∧ FieldZero s.secs g := by
-              rcases h.status g hg with ⟨hp, hz⟩ | ⟨loff, hb, _⟩
+              rcases h.status g hg with ⟨hp, hz⟩ | ⟨_, loff, hb, _⟩
               · rcases hp with ⟨fx', h1, h2⟩ | h1
                 · rw [hgl, hle] at h1; cases h1; exact ⟨h2, hz⟩
                 · obtain ⟨k, ksec, koff, hk1, hk2⟩ := h.wf _ h1
@@ -324,23 +370,59 @@ theorem inv_bindLabel (s : State) (l sec : Nat) (off : BitVec 64) (h : Inv s) : 
             have hG : (g.toFixup none).toG l = g := by rw [← hgl]; exact toFixup_toG g none
             have hown := LS.own (g.toFixup none) hpend.1 rfl (by rw [hG]; exact hpend.2)
             rw [hG] at hown
-            rcases hown with ⟨h1, h2⟩ | ⟨h1, h2⟩
+            rcases hown with ⟨h1, henc, h2⟩ | ⟨h1, h2⟩
             · right
-              refine ⟨off, ?_, h2⟩
-              show (s.labels.set l _)[g.label]? = _
-              rw [hgl, hgetl]
-              have : g.sec = sec := h1
-              rw [this]
+              refine ⟨?_, off, ?_, h2⟩
+              · -- no longer on any list
+                rintro (⟨fx', hx1, _⟩ | hx1)
+                · replace hx1 : (s.labels.set l (LabelEntry.bound sec off))[g.label]? = some (LabelEntry.unbound fx') := hx1
+                  rw [hgl, hgetl] at hx1; cases hx1
+                · replace hx1 : g.toFixup (some g.label) ∈ (fx.foldl (bindStep l sec off)
+                      { secs := s.secs, relocs := s.relocs, kept := [], resolved := 0, err := .ok }).kept ++ s.fixups := hx1
+                  rw [List.mem_append] at hx1
+                  rcases hx1 with hx1 | hx1
+                  · rcases LS.keptNew _ hx1 with h0 | ⟨f', _, hn', he', hr⟩
+                    · cases h0
+                    · have e := toFixup_some_eq he'
+                      -- f' has the fields of g: same section as the label, and its displacement was accepted
+                      have e1 : f'.sec = g.sec := by rw [e]; rfl
+                      have e2 : f'.fmt = g.fmt := by rw [e]; rfl
+                      have e3 : f'.offset = g.offset := by rw [e]; rfl
+                      have e4 : f'.rel = g.rel := by rw [e]; rfl
+                      rcases hr with hr | hr
+                      · exact hr (e1.trans h1)
+                      · rw [e2, e3, e4] at hr; exact henc hr
+                  · obtain ⟨k, ksec, koff, hk1, hk2⟩ := h.wf _ hx1
+                    simp only [GRef.toFixup, Option.some.injEq] at hk1
+                    rw [← hk1, hgl, hle] at hk2; cases hk2
+              · show (s.labels.set l _)[g.label]? = _
+                rw [hgl, hgetl]
+                have : g.sec = sec := h1
+                rw [this]
             · left
               refine ⟨.inr ?_, h2⟩
               show g.toFixup (some g.label) ∈ _ ++ s.fixups
               apply List.mem_append_left
               rw [hgl]
               exact h1
-          · refine status_mono ?_ ?_ (LS.frame g (hother g hg hgl)) (h.status g hg)
+          · refine status_mono ?_ ?_ ?_ (LS.frame g (hother g hg hgl)) (h.status g hg)
             · rintro (⟨fx', h1, h2⟩ | h1)
               · exact .inl ⟨fx', by show (s.labels.set l _)[g.label]? = _; rw [List.getElem?_set_ne (Ne.symm hgl)]; exact h1, h2⟩
               · exact .inr (List.mem_append_right _ h1)
+            · rintro (⟨fx', h1, h2⟩ | h1)
+              · replace h1 : (s.labels.set l (LabelEntry.bound sec off))[g.label]? = some (LabelEntry.unbound fx') := h1
+                rw [List.getElem?_set_ne (Ne.symm hgl)] at h1
+                exact .inl ⟨fx', h1, h2⟩
+              · replace h1 : g.toFixup (some g.label) ∈ (fx.foldl (bindStep l sec off)
+                    { secs := s.secs, relocs := s.relocs, kept := [], resolved := 0, err := .ok }).kept ++ s.fixups := h1
+                rw [List.mem_append] at h1
+                rcases h1 with h1 | h1
+                · rcases LS.keptNew _ h1 with h0 | ⟨f', _, _, he', _⟩
+                  · cases h0
+                  · have : (g.toFixup (some g.label)).lr = some l := by rw [he']
+                    simp only [GRef.toFixup, Option.some.injEq] at this
+                    exact absurd this hgl
+                · exact .inr h1
             · intro bsec boff hb
               show (s.labels.set l _)[g.label]? = _
               rw [List.getElem?_set_ne (Ne.symm hgl)]; exact hb
@@ -355,9 +437,9 @@ theorem inv_bindLabel (s : State) (l sec : Nat) (off : BitVec 64) (h : Inv s) : 
           have hk : ∀ k ∈ (fx.foldl (bindStep l sec off) { secs := s.secs, relocs := s.relocs, kept := [], resolved := 0, err := .ok }).kept,
               ∃ f ∈ fx, f.lr = none ∧ k = { f with lr := some l } := by
             intro k hk
-            rcases LS.keptNew k hk with h0 | h0
+            rcases LS.keptNew k hk with h0 | ⟨f, hf, hn, he, _⟩
             · cases h0
-            · exact h0
+            · exact ⟨f, hf, hn, he⟩
           constructor
           · intro k hkm
             show ∃ l', k.lr = some l' ∧ k.toG l' ∈ s.ghost
